@@ -157,16 +157,40 @@ LIBRARY["lark.Transformer.transform"] = lark_transform
 
 
 def _tree_scan_values(ex, st, args, kwargs, fn):
-    """A-LARK-TREE: scan_values(pred) yields every leaf satisfying pred once, in order: here the Token leaves"""
+    """A-LARK-TREE: scan_values(pred) yields every leaf (Token) satisfying pred exactly once, in document order.  The
+    leaves of an opaque tree are a symbolic sequence of tokens (ghost 'tree_tokens')."""
     used(ex, "A-LARK-TREE")
     from pyvc.contracts import Inst, SeqOf, Str
     tree = fn.bound
     key = ("tokens", id(tree) if not isinstance(tree, Opaque) else tree.tag)
     if key not in st.ghost:
-        seq = SeqOf(lambda ex_, s_, name, i: Inst("Token", value=Str(), type=Str()).make(ex_, s_, name)).make(
-            ex, st, "tokens")
+        maker = getattr(ex, "token_maker", None) or (
+            lambda ex_, s_, name, i: Inst("Token", value=Str(), type=Str()).make(ex_, s_, name))
+        seq = SeqOf(maker).make(ex, st, "tokens")
         st.ghost[key] = st.heap[seq.oid].lt
-    return [(st, st.ghost[key])]
+        st.ghost["tree_tokens"] = seq
+    lt = st.ghost[key]
+    pred = args[0] if args else None
+    if pred is None:
+        return [(st, lt)]
+    n0 = len(st.pc)
+
+    def f(item, binders):
+        s = st.fork()
+        for b in binders:
+            s.assume(z3.And(b[1] >= 0, b[1] < b[2]) if b[0] == "bind" else b[1])
+        base = len(s.pc)
+        segs = []
+        for s2, r in ex.call(pred, [item], {}, s):
+            if isinstance(r, Exc):
+                raise Unsupported("scan_values predicate may raise")
+            dec, _ax = s2.split(s2.pc[base:])
+            cond = z3.And(*dec, ex.truth(s2, r)) if dec else ex.truth(s2, r)
+            for k, o in s2.heap.items():
+                st.heap.setdefault(k, o)
+            segs.append(L.Guard(cond, L.LT([L.Unit(item)])))
+        return L.LT(segs)
+    return [(st, L.lt_map(lt, f))]
 
 
 ATTR_LIBRARY["inst:Tree.scan_values"] = lambda ex, st, v, attr: [(st, BuiltinV("lark.Tree.scan_values", v))]
